@@ -17,7 +17,7 @@
 EXTENDS RaggedHeap, Judge, Json, IOUtils
 Trace == JsonDeserialize(IOEnv.TRACE_FILE)
 VARIABLES p, l
-tvars == <<heap, alias, bufs, view, stale, last, p, l>>
+tvars == <<heap, alias, bufs, view, stale, last, anc, mayst, p, l>>
 Init == HeapInit /\ p = 1 /\ l = 1 /\ TLCSet(1, 0)
 
 AsOut(a) == IF a[1] = "raised" THEN a ELSE <<"ragged", a[1], a[2]>>
@@ -27,13 +27,16 @@ HandleVerdict(g, ob) ==
       v == Judge(exp, AsOut(ob), FALSE)
   IN IF v = "ok" THEN TRUE
      ELSE IF g \in stale' /\ Judge(mech, AsOut(ob), FALSE) = "ok" THEN PrintT(<<"V", Trace[p].id, l, g, "known", exp, mech>>)
+     ELSE IF g \in mayst' THEN PrintT(<<"V", Trace[p].id, l, g, "known-inexact", exp, mech>>)
      ELSE PrintT(<<"V", Trace[p].id, l, g, v, exp, mech>>)
 ResVerdict(res) ==       \* the step's own result
-  IF last'[1] = "obs" THEN
+  IF last'[1] = "obs" /\ last'[2][1] = "unspec" THEN TRUE             \* the step is outside every claim: no verdict (the program is cut short)
+  ELSE IF last'[1] = "obs" THEN
        (IF res[1] # "obs" THEN PrintT(<<"V", Trace[p].id, l, 0, IF last'[2][1] = "refused" THEN "not-refused" ELSE "kind", last'[2], last'[3]>>)
         ELSE LET v == Judge(last'[2], res[2], FALSE) IN
              IF v \in {"ok", "unspec"} THEN TRUE
              ELSE IF Judge(last'[3], res[2], FALSE) = "ok" THEN PrintT(<<"V", Trace[p].id, l, 0, "known", last'[2], last'[3]>>)
+             ELSE IF HandlesOf(Trace[p].steps[l]) \cap mayst # {} THEN PrintT(<<"V", Trace[p].id, l, 0, "known-inexact", last'[2], last'[3]>>)
              ELSE PrintT(<<"V", Trace[p].id, l, 0, v, last'[2], last'[3]>>))
   ELSE IF last'[1] = "new" /\ res[1] # "new" THEN PrintT(<<"V", Trace[p].id, l, 0, "raised", last', last'>>)
   ELSE IF last'[1] = "none" /\ res[1] = "obs" THEN PrintT(<<"V", Trace[p].id, l, 0, "raised", last', last'>>)
@@ -41,7 +44,7 @@ ResVerdict(res) ==       \* the step's own result
 \* the recorded run and the specification disagree on whether a handle was created, or the step is outside the claim
 Diverges(res) == \/ (last'[1] = "new") # (res[1] = "new")
                  \/ (last'[1] = "obs" /\ last'[2][1] = "unspec" /\ ~(res[1] = "obs" /\ res[2][1] = "raised"))
-Reset == heap' = <<>> /\ alias' = <<>> /\ bufs' = <<>> /\ view' = <<>> /\ stale' = {} /\ last' = <<"none">>
+Reset == heap' = <<>> /\ alias' = <<>> /\ bufs' = <<>> /\ view' = <<>> /\ stale' = {} /\ last' = <<"none">> /\ anc' = <<>> /\ mayst' = {}
 Next ==
   /\ p <= Len(Trace)
   /\ IF l <= Len(Trace[p].steps) THEN
@@ -54,7 +57,7 @@ Next ==
                    /\ \A g \in DOMAIN heap' : IF g > Len(rec.obs) THEN TRUE ELSE HandleVerdict(g, rec.obs[g])
                    /\ l' = l + 1
            /\ p' = p
-        ELSE PrintT(<<"S", Trace[p].id, l>>) /\ UNCHANGED <<heap, alias, bufs, view, stale, last, p>> /\ l' = Len(Trace[p].steps) + 1
+        ELSE PrintT(<<"S", Trace[p].id, l>>) /\ UNCHANGED <<heap, alias, bufs, view, stale, last, anc, mayst, p>> /\ l' = Len(Trace[p].steps) + 1
      ELSE Reset /\ p' = p + 1 /\ l' = 1 /\ TLCSet(1, p)
 AllConsumed == TLCGet(1) = Len(Trace)          \* every recorded program was walked to its end (-workers 1)
 =============================================================================
